@@ -23,7 +23,7 @@ func genC09Spam(g *Gen, tier string) *Program {
 	baseCfg(g, c)
 	c.Faults.SlowPct = 0
 	p.Prelude = append(p.Prelude, Op{K: "gauge", S: 0, M: 70, Name: "spam"}, Op{K: "upd", M: 70, F: f64bits(1)})
-	for i := g.Range(2, 4); i > 0; i-- {
+	for i := pick(g, 2, 3, 4, 4, 10); i > 0; i-- {
 		var ops []Op
 		for k := g.Intn(3); k > 0; k-- {
 			ops = append(ops, Op{K: "yield"})
